@@ -205,11 +205,86 @@ def t_bu_wire(ex):
             ex.oblige(f"{P}.ensures.{key}_value", Implies(is_set, models.eq(it, got, Wire.wrap(f(v.val.t)))))
 
 
+# ------------------------------------------------------------------ bounded stand-in: real changes over strings and bug ids ----
+def enum_compose(seed):
+    """every pair of list changes over a string alphabet and over an integer (bug id) alphabet, on every initial list: a | b is refused or
+    its wire form, applied the way Bugzilla does ((L + add) - remove, or set), equals applying a's and then b's; a change naming a
+    value both to add and to remove is refused by the constructor"""
+    import itertools
+    from pkgcore.bugzilla.changes import ListChange, BugUpdate
+    from pkgcore.bugzilla.errors import BugzillaUsageError
+    fails, cases = [], 0
+
+    def apply_wire(w, L):
+        L = list(L)
+        if "set" in w:
+            return sorted(set(w["set"]))
+        for x in w.get("add", []):
+            if x not in L:
+                L.append(x)
+        return sorted(set(x for x in L if x not in w.get("remove", [])))
+    for alpha in (("a", "b", "c"), (1, 2, 3)):
+        subsets = [c for n in range(3) for c in itertools.combinations(alpha, n)]
+        changes = []
+        for sub in subsets:
+            changes += [("add", sub), ("remove", sub), ("set", sub)]
+        for a2, r2 in itertools.product(subsets[:4], repeat=2):
+            if a2 and r2:
+                changes.append(("both", (a2, r2)))
+
+        def build(kind, v):
+            if kind == "add":
+                return ListChange.adding(*v)
+            if kind == "remove":
+                return ListChange.removing(*v)
+            if kind == "set":
+                return ListChange.setting(*v)
+            return ListChange(add=v[0], remove=v[1])
+        built = []
+        for kind, v in changes:
+            cases += 1
+            try:
+                c = build(kind, v)
+            except BugzillaUsageError:
+                c = None
+            overlap = kind == "both" and set(v[0]) & set(v[1])
+            if (c is None) != bool(overlap) and len(fails) < 4:
+                fails.append({"model": {"change": [kind, list(map(list, v)) if kind == "both" else list(v)]},
+                              "detail": f"ListChange {kind} {v}: {'refused' if c is None else 'accepted'}; a change must be refused exactly when it names a value both to add and to remove"})
+            if c is not None:
+                built.append(((kind, v), c))
+        lists = [list(c) for n in range(len(alpha) + 1) for c in itertools.combinations(alpha, n)]
+        for (na, a), (nb, b) in itertools.product(built, repeat=2):
+            try:
+                ab = a | b
+            except BugzillaUsageError:
+                ab = None
+            for L in lists:
+                cases += 1
+                Ls = [str(x) for x in L]
+                want = apply_wire(b.to_wire(), apply_wire(a.to_wire(), Ls))
+                if ab is None:
+                    continue
+                got = apply_wire(ab.to_wire(), Ls)
+                if got != want and len(fails) < 4:
+                    fails.append({"model": {"a": [na[0], repr(na[1])], "b": [nb[0], repr(nb[1])], "list": L},
+                                  "detail": f"{na} | {nb} renders {ab.to_wire()}: on {Ls} that gives {got}, applying the two in sequence gives {want}"})
+        # the update payload names exactly the list fields that are set (an explicit empty set too)
+        for (na, a) in built:
+            cases += 1
+            w = BugUpdate(cc=a).to_wire([1])
+            is_set = bool(a.add or a.remove or a.replace is not None)
+            if ("cc" in w) != is_set and len(fails) < 4:
+                fails.append({"model": {"cc": [na[0], repr(na[1])]}, "detail": f"BugUpdate(cc={na}).to_wire: 'cc' {'present' if 'cc' in w else 'missing'}, the field is {'set' if is_set else 'not set'}"})
+    return {"name": "C39.list_changes.bounded_enumeration", "bound": "every add / remove / set / add+remove change of <= 2 values over {a, b, c} and over {1, 2, 3}, every ordered pair of them on every initial list, "
+            "through the real constructors, __or__, to_wire and BugUpdate.to_wire", "cases": cases, "failures": fails}
+
+
 def tasks():
     fns = [(FILE, "ListChange.__or__"), (FILE, "ListChange.__post_init__")]
     return [
         Task("C39.ListChange.__or__", t_or, fns),
-        Task("C39.ListChange.to_wire", t_lc_wire, [(FILE, "ListChange.to_wire")]),
+        Task("C39.ListChange.to_wire", t_lc_wire, [(FILE, "ListChange.to_wire")], enumerate=enum_compose),
         Task("C39.BugUpdate.to_wire", t_bu_wire, [(FILE, "BugUpdate.to_wire")]),
     ]
 
